@@ -384,7 +384,9 @@ func (env *Env) evalIdent(e *ast.Ident) Val {
 		// (entry(x) names the value at entry)
 		if _, isParam := fc.params[e.Name]; isParam {
 			if w, has := env.st.locals[e.Name]; has && !env.st.localAddr[e.Name] && w.T != "" {
-				if pv, ok := env.vars[e.Name]; !ok || pv.T != w.T {
+				// (a variable of another type with the same name is a shadowing declaration, e.g. the variable of
+				// a type switch, not a reassignment of the parameter)
+				if pv, ok := env.vars[e.Name]; ok && pv.T != w.T && pv.Typ != nil && w.Typ != nil && types.Identical(pv.Typ, w.Typ) && pv.Sort == w.Sort {
 					return w
 				}
 			}
